@@ -109,22 +109,33 @@ theorem exec_drains (P : Params) (hL : 1 ≤ P.L) (hE : 1 ≤ P.E) (hC : 1 ≤ P
     Quiet (exec P h s) :=
   exec_quiet P hL hE hC h s
 
-/-- A module event (either code) that starts with nothing runnable, at an instant no pending timer deadline
+/-- An own event of the module (either code) that starts with nothing runnable but tasks woken by other modules'
+events, at an instant no pending timer deadline
 precedes, never makes a late observation: whatever it polls - the timer-woken tasks included - became runnable
 in this very instant.  Lateness can only come from work an earlier event left behind. -/
-theorem event_from_quiet_on_time (P : Params) (single : Bool) (ev : Ev) (s : St)
-    (hq : Quiet s) (ho : OnTime s) (hns : ∀ tm ∈ s.timers, ev.time ≤ tm.deadline) :
+theorem event_from_quiet_on_time (P : Params) (single : Bool) (ev : Ev) (s : St) (hf : ev.foreign = false)
+    (hq : Pend s) (ho : OnTime s) (hns : ∀ tm ∈ s.timers, ev.time ≤ tm.deadline) :
     OnTime (handle P single ev s) :=
-  (handle_inv P single ev s hq ho hns).2.2.2.2.1
+  (handle_inv P single ev s hf hq ho hns).2.2.2.2.1
+
+/-- Another module's event that wakes tasks of this module (shared `Arc<Notify>` / channel): nothing of this
+module is polled, the woken tasks are queued with the stamp `.foreign`, the timers and the log are untouched.  They
+are polled at the module's next own event (`exec_drains`).  C06 speaks of "an event processed for a module" and
+"every task of that module": such a wake is outside its scope, and `OnTime` exempts exactly these observations. -/
+theorem foreign_wakes_wait_for_next_event (P : Params) (single : Bool) (ev : Ev) (s : St) (hf : ev.foreign = true)
+    (hq : Pend s) (ho : OnTime s) :
+    Pend (handle P single ev s) ∧ OnTime (handle P single ev s) ∧ (handle P single ev s).timers = s.timers :=
+  handle_foreign P single ev s hf hq ho
 
 /-- No task ever observes a simulated time later than the instant at which its awaited condition became true -
 be it woken by a task, the handler, a consuming processing element or a timer (`sleep`) - for every script,
-every sequence of external messages and any budgets of at least one poll (repaired code); and every event ends
-with nothing runnable. -/
+every sequence of own messages interleaved with events of other modules that wake its tasks, and any budgets of
+at least one poll (repaired code); at the end only wakes by other modules can be pending.  Observations enabled by
+another module's event are the one exemption (`OnTime`): they are made at the module's next own event. -/
 theorem no_await_observes_later_time (P : Params) (hL : 1 ≤ P.L) (hE : 1 ≤ P.E) (hC : 1 ≤ P.C)
     (fuel : Nat) (evs : List Ev) (s : St) (hq : Quiet s) (ho : OnTime s) (ht : s.timers = []) :
-    OnTime (runSim P false fuel evs [] none s) ∧ Quiet (runSim P false fuel evs [] none s) :=
-  runSim_onTime P hL hE hC fuel evs [] none s hq ho
+    OnTime (runSim P false fuel evs [] none s) ∧ Pend (runSim P false fuel evs [] none s) :=
+  runSim_onTime P hL hE hC fuel evs [] none s (pend_of_quiet s hq) ho
     ⟨fun tm htm => by rw [ht] at htm; simp at htm, fun w0 h => by simp at h⟩
 
 /-! ### witnesses: one pass per event leaves work behind -/
@@ -138,7 +149,7 @@ theorem budget_witness :
 (61 of them registered, the 62nd still queued from the spawning event) are woken into the inject queue; at the
 deadline 61 polls are made, one timer-woken task stays in the inject queue. -/
 theorem timer_budget_witness :
-    ((runSim { L := 61, E := 61, C := 128 } true 9 [⟨1, false, spawnAll 62⟩] [] none (sleepers .rt 62 5)).iq.map
+    ((runSim { L := 61, E := 61, C := 128 } true 9 [{ time := 1, prog := spawnAll 62 }] [] none (sleepers .rt 62 5)).iq.map
       (·.idx)) = [60] := by
   decide +kernel
 
@@ -150,26 +161,46 @@ theorem local_budget_witness :
 /-- F4d (one pass): a local task woken by a runtime task is polled only at the module's next event:
 woken at instant 2, observed at instant 9. -/
 theorem cross_wake_witness :
-    ((runSim tokioParams true 9 [⟨1, false, [.spawn 0]⟩, ⟨2, false, [.spawn 1]⟩, ⟨9, false, []⟩] [] none
+    ((runSim tokioParams true 9 [{ time := 1, prog := [.spawn 0] }, { time := 2, prog := [.spawn 1] }, { time := 9, prog := [] }] [] none
         crossState).log.map
       fun x => (x.idx, x.time, x.ready)) = [(0, 9, 2), (1, 2, 2), (0, 1, 1)] := by
   decide +kernel
 
 /-- F4c (one pass): a task that calls `yield_now` continues only at the module's next event. -/
 theorem yield_witness :
-    ((runSim tokioParams true 9 [⟨1, false, [.spawn 0]⟩, ⟨9, false, []⟩] [] none
+    ((runSim tokioParams true 9 [{ time := 1, prog := [.spawn 0] }, { time := 9, prog := [] }] [] none
         { tasks := [{ kind := .rt, prog := [.yield] }] }).log.map
       fun x => (x.idx, x.time, x.ready)) = [(0, 9, 1), (0, 1, 1)] := by
   decide +kernel
 
+/-- Cross-module wake (code under test): task 0 of this module awaits condition 0; another module's event at
+instant 2 wakes it; it observes instant 5, the module's next own event.  Outside the scope of C06 as worded
+(origin `.foreign`), reported for information. -/
+theorem cross_module_witness :
+    ((runSim tokioParams false 9 [{ time := 1, prog := [.spawn 0] }, { time := 2, prog := [.wake 0], foreign := true },
+        { time := 5 }] [] none { tasks := [{ kind := .rt, prog := [.wait 0] }], conds := [{ coop := true }] }).log.map
+      fun x => (x.idx, x.time, x.ready, x.origin)) = [(0, 5, 2, .foreign), (0, 1, 1, .handler)] := by
+  decide +kernel
+
 /-! ### non-vacuity -/
 
+-- three tasks wait on one Notify; `notify_waiters` releases them all, oldest first, within the instant
+example : ((runSim tokioParams false 9 [{ time := 1, prog := [.spawn 0, .spawn 1, .spawn 2] },
+      { time := 4, prog := [.notifyAll 0] }] [] none waitersState).log.map fun x => (x.idx, x.time, x.ready))
+    = [(2, 4, 4), (0, 4, 4), (1, 4, 4), (2, 1, 1), (0, 1, 1), (1, 1, 1)] := by decide +kernel
+
+-- two wakes for three waiting tasks: the two longest-waiting ones (1, the local task polled first, then 0) get them
+example : ((runSim tokioParams false 9 [{ time := 1, prog := [.spawn 0, .spawn 1, .spawn 2] },
+      { time := 4, prog := [.wake 0, .wake 0] }] [] none waitersState).log.map fun x => (x.idx, x.time, x.ready))
+    = [(0, 4, 4), (1, 4, 4), (2, 1, 1), (0, 1, 1), (1, 1, 1)] := by decide +kernel
+
+
 -- the repaired code on the witnesses' inputs: everything runs in its instant
-example : ((runSim tokioParams false 9 [⟨1, false, [.spawn 0]⟩, ⟨2, false, [.spawn 1]⟩, ⟨9, false, []⟩] [] none
+example : ((runSim tokioParams false 9 [{ time := 1, prog := [.spawn 0] }, { time := 2, prog := [.spawn 1] }, { time := 9, prog := [] }] [] none
     crossState).log.map fun x => (x.idx, x.time, x.ready)) = [(0, 2, 2), (1, 2, 2), (0, 1, 1)] := by
   decide +kernel
 
-example : ((runSim tokioParams false 9 [⟨1, false, [.spawn 0]⟩, ⟨9, false, []⟩] [] none
+example : ((runSim tokioParams false 9 [{ time := 1, prog := [.spawn 0] }, { time := 9, prog := [] }] [] none
     { tasks := [{ kind := .rt, prog := [.yield] }] }).log.map
     fun x => (x.idx, x.time, x.ready)) = [(0, 1, 1), (0, 1, 1)] := by decide +kernel
 
@@ -177,16 +208,16 @@ example : (exec tokioParams (spawnAll 62) (readyTasks .loc 62)).lq = [] ∧
     (exec tokioParams (spawnAll 62) (readyTasks .loc 62)).log.length = 62 := by decide +kernel
 
 -- 62 sleepers with one deadline, E = 61, repaired drain loop: all observe the deadline
-example : ((runSim { L := 61, E := 61, C := 128 } false 9 [⟨1, false, spawnAll 62⟩] [] none
+example : ((runSim { L := 61, E := 61, C := 128 } false 9 [{ time := 1, prog := spawnAll 62 }] [] none
     (sleepers .rt 62 5)).log.filter fun x => x.time == 5).length = 62 := by decide +kernel
 
 -- timers, a wake from a timer-woken runtime task to a local task, a relative sleep: wake-up events at 5 and 7
-example : ((runSim tokioParams false 9 [⟨1, false, [.spawn 1, .spawn 0]⟩] [] none timerChain).log.map
+example : ((runSim tokioParams false 9 [{ time := 1, prog := [.spawn 1, .spawn 0] }] [] none timerChain).log.map
     fun x => (x.idx, x.time, x.ready)) = [(1, 7, 7), (1, 5, 5), (0, 5, 5), (0, 1, 1), (1, 1, 1)] := by
   decide +kernel
 
 -- a message consumed by a processing element wakes a runtime task through the inject queue
-example : ((runSim tokioParams false 9 [⟨1, false, [.spawn 2, .spawn 1]⟩, ⟨3, true, [.wake 0]⟩] [] none
+example : ((runSim tokioParams false 9 [{ time := 1, prog := [.spawn 2, .spawn 1] }, { time := 3, consumed := true, prog := [.wake 0] }] [] none
     chainState).log.map fun x => (x.idx, x.time)) = [(2, 3), (1, 3), (1, 1), (2, 1)] := by decide +kernel
 
 example : 1 ≤ tokioParams.L ∧ 1 ≤ tokioParams.E ∧ 1 ≤ tokioParams.C := by decide
